@@ -594,6 +594,28 @@ struct dirent *__wrap_readdir(DIR *d)
 				st->ents[st->n - 1 - i] = t;
 			}
 			break;
+		case 5: /* sorted, then rotated: two ascending runs, the second one starts at index <seed> */
+			qsort(st->ents, st->n, sizeof(struct dirent), cmp_dirent);
+			if (st->n > 1) {
+				size_t k = (st->n - rd_seed % st->n) % st->n, a;
+				struct dirent *tmp = __real_malloc(st->n * sizeof(struct dirent));
+				for (a = 0; a < st->n; ++a)
+					tmp[a] = st->ents[(a + k) % st->n];
+				memcpy(st->ents, tmp, st->n * sizeof(struct dirent));
+				free(tmp);
+			}
+			break;
+		case 6: /* sorted, but "." and ".." moved to a seed dependent position */
+			qsort(st->ents, st->n, sizeof(struct dirent), cmp_dirent);
+			if (st->n > 3) {
+				size_t k = 2 + rd_seed % (st->n - 2), a;
+				struct dirent d0 = st->ents[0], d1 = st->ents[1];
+				for (a = 2; a <= k; ++a)
+					st->ents[a - 2] = st->ents[a];
+				st->ents[k - 1] = d0;
+				st->ents[k] = d1;
+			}
+			break;
 		case 3:
 			/* shuffle relative to the *sorted* order so that the
 			   permutation depends on the seed only */
